@@ -35,6 +35,11 @@ def parseTok (s : String) : Option Format.Tok :=
   | _ => none
 
 def handle (st : St) (line : String) : St × String :=
+  if line.startsWith "EVAL " then
+    match Sexp.parseMany (line.drop 5).toString with
+    | some [e, env] => (st, evalLine e env)
+    | _ => (st, "bad-op")
+  else
   match line.splitOn " " with
   | "ECHO" :: rest => (st, " ".intercalate rest)
   | ["RULES", tys, bits, brs] =>
@@ -45,6 +50,25 @@ def handle (st : St) (line : String) : St × String :=
     match (toks.filter (· ≠ "")).mapM parseTok with
     | some ts => (st, " ".intercalate ((Format.format st.fmtRules ts).map fun t => toString t.sp))
     | none => (st, "bad-op")
+  | ["JSON", hex, advs] =>
+    -- JSON <hex bytes> <cluster advance per byte offset, comma separated | ->
+    match Sexp.hexBytes hex, (if advs == "-" then some [] else splitNats advs ',') with
+    | some bs, some tbl =>
+      let arr := tbl.toArray
+      let n := bs.length
+      let adv : List Nat → Nat := fun rest => arr.getD (n - rest.length) 1
+      match Json.parseExpression adv bs with
+      | some node => (st, "acc " ++ Json.dump node)
+      | none => (st, "rej")
+    | _, _ => (st, "bad-op")
+  | ["JSONSCAN", hex, advs] =>
+    match Sexp.hexBytes hex, (if advs == "-" then some [] else splitNats advs ',') with
+    | some bs, some tbl =>
+      let arr := tbl.toArray
+      let n := bs.length
+      let adv : List Nat → Nat := fun rest => arr.getD (n - rest.length) 1
+      (st, " ".intercalate ((Json.scan adv bs).map fun t => s!"{repr t.ty}:{t.start}:{t.bytes.length}"))
+    | _, _ => (st, "bad-op")
   | _ => (st, "bad-op")
 
 partial def loop (h : IO.FS.Stream) (out : IO.FS.Stream) (st : St) : IO Unit := do
